@@ -9,4 +9,4 @@ Extraction "../ocaml/c19/model.ml" sty_of sem_new sem_apply spec_new spec_apply 
   nc_path_for nc_extract_name_from_file nc_extract_name_from_path last_component
   spec_add_path_entry spec_path_for spec_extract_name_from_file spec_extract_name_from_path
   connection_name extract_sender_port_id extract_receiver_port_id dec_print dec_parse
-  err_kind_class full_zero_class log_buffer_class cap_of.
+  prefix_related cap_of.
